@@ -317,7 +317,7 @@ func c03Framing(c *Ctx, sh *shard, w *tWorld, wi int) {
 					break
 				}
 				scanned = append(scanned, rb)
-				if id, has := rowID(rb); has && w.json[id] != nil {
+				if id, has := tRowID(rb); has && w.json[id] != nil {
 					rows = append(rows, w.json[id])
 				} else {
 					rows = append(rows, []byte("?"))
